@@ -129,13 +129,46 @@ fn run_sinkfault(sc: &J) -> J {
     let w = free.calls;
     match r0 {
         Ok(Ok(())) => {}
-        Ok(Err(e)) => return json!({"outcome": "err", "stage": "render", "error": e.to_string()}),
+        Ok(Err(e)) => {
+            // streaming failed without any sink fault: a violation if the buffering render succeeds
+            if let Ok(Ok(s)) = catch_unwind(AssertUnwindSafe(|| tmpl.render(&g))) {
+                return json!({"outcome": "violation", "what": "render_to fails where render succeeds", "error": e.to_string(), "buffered": s});
+            }
+            return json!({"outcome": "err", "stage": "render", "error": e.to_string()});
+        }
         Err(p) => return json!({"outcome": "violation", "what": "panic without fault", "panic": panic_msg(p)}),
     }
     let buffered = catch_unwind(AssertUnwindSafe(|| tmpl.render(&g)));
     if let Ok(Ok(s)) = &buffered {
         if s.as_bytes() != full.as_slice() {
             return json!({"outcome": "violation", "what": "streamed bytes differ from buffered render", "streamed": String::from_utf8_lossy(&full), "buffered": s});
+        }
+    }
+    // a sink that accepts one byte per `write` call and never fails: the streamed bytes must still be complete
+    {
+        struct OneByte(Vec<u8>);
+        impl Write for OneByte {
+            fn write(&mut self, buf: &[u8]) -> std::io::Result<usize> {
+                if buf.is_empty() {
+                    return Ok(0);
+                }
+                self.0.push(buf[0]);
+                Ok(1)
+            }
+            fn flush(&mut self) -> std::io::Result<()> {
+                Ok(())
+            }
+        }
+        let mut ob = OneByte(Vec::new());
+        let r = catch_unwind(AssertUnwindSafe(|| tmpl.render_to(&mut ob, &g)));
+        match r {
+            Ok(Ok(())) => {
+                if ob.0 != full {
+                    return json!({"outcome": "violation", "what": "short writes lose output", "streamed": String::from_utf8_lossy(&ob.0), "expected": String::from_utf8_lossy(&full)});
+                }
+            }
+            Ok(Err(e)) => return json!({"outcome": "violation", "what": "error with a sink that never fails", "error": e.to_string()}),
+            Err(p) => return json!({"outcome": "violation", "what": "panic", "panic": panic_msg(p)}),
         }
     }
     for k in 1..=w {
